@@ -40,7 +40,7 @@ var LevelNames = []string{"DEBUG", "INFO", "WARN", "ERROR", "FATAL"}
 type Rec struct {
 	Level  int
 	Source bool
-	Entry  int // 0 Log(args), 1 LogAttrs, 2 Logf
+	Entry  int // 0 Log(args), 1 LogAttrs, 2 Logf, 3 Log(args) from a call site whose file name needs quoting
 	Msg    string
 	Chain  []vlog.ChainOp
 	Call   []*vlog.Node
@@ -75,6 +75,8 @@ func emit(l *logger.Logger, r *Rec) (file string, line int) {
 		_, file, line, _ = runtime.Caller(0); l.Log(ctx, lv, r.Msg, vlog.Args(r.Call)...)
 	case 1:
 		_, file, line, _ = runtime.Caller(0); l.LogAttrs(ctx, lv, r.Msg, vlog.Attrs(r.Call)...)
+	case 3:
+		return emitOddSource(l, r)
 	default:
 		_, file, line, _ = runtime.Caller(0); l.Logf(ctx, lv, "%s", r.Msg)
 	}
@@ -422,6 +424,8 @@ func StandardPasses() []Pass {
 		{"strings", genStrings(vcommon.Thorough()), false},
 		{"value-kinds", genKinds(), true},
 		{fmt.Sprintf("structure(budget %d nodes, chains <= %d)", budget, maxChain), genStructure(budget, maxChain), true},
+		{"deep-chains(1..300 derivations)", GenDeepChains(), false},
+		{"odd-source-file-name", GenOddSource(), false},
 	}
 }
 
@@ -538,6 +542,16 @@ func GenClassPairs() Gen {
 				}
 			}
 		}
+		// long strings: dotted paths beyond any small scratch-buffer size (32, 64 bytes)
+		for _, a := range classes {
+			strs = append(strs, strings.Repeat("k", 34)+a, a+strings.Repeat("k", 40), strings.Repeat("ab", 35)+a+"z")
+			// lengths around 32 and 64 bytes: a dotted path that just fits / just overflows a scratch buffer
+			for _, l := range []int{27, 28, 29, 30, 31, 32, 33, 61, 62, 63, 64, 65} {
+				if l > len(a) {
+					strs = append(strs, strings.Repeat("p", l-len(a))+a)
+				}
+			}
+		}
 		n := 0
 		for _, s := range strs {
 			leaf := &vlog.Node{Kind: vlog.NLeaf, Key: "k", Leaf: vlog.LeafByName("str")}
@@ -556,4 +570,76 @@ func GenClassPairs() Gen {
 			}
 		}
 	}
+}
+
+// GenDeepChains logs through chains of up to 300 derivations (counters and buffers that only
+// misbehave at depth).
+func GenDeepChains() Gen {
+	return func(yield func(*Rec) bool) {
+		leaf := func(k string) *vlog.Node { return &vlog.Node{Kind: vlog.NLeaf, Key: k, Leaf: vlog.LeafByName("str")} }
+		n := 0
+		for d := 1; d <= 300; d++ {
+			var groups, mixed []vlog.ChainOp
+			for i := 0; i < d; i++ {
+				groups = append(groups, vlog.ChainOp{Group: fmt.Sprintf("g%d", i%7)})
+				if i%2 == 0 {
+					mixed = append(mixed, vlog.ChainOp{Group: fmt.Sprintf("m%d", i%5)})
+				} else {
+					mixed = append(mixed, vlog.ChainOp{Attrs: []*vlog.Node{leaf(fmt.Sprintf("a%d", i))}})
+				}
+			}
+			for _, ch := range [][]vlog.ChainOp{groups, mixed} {
+				n++
+				if !yield(&Rec{Level: n % 5, Source: n%2 == 0, Entry: n % 2, Msg: "deep", Chain: ch, Call: []*vlog.Node{leaf("z")}}) {
+					return
+				}
+			}
+		}
+	}
+}
+
+// GenOddSource logs from a call site whose recorded file name contains spaces, '=', quotes.
+func GenOddSource() Gen {
+	return func(yield func(*Rec) bool) {
+		leaf := &vlog.Node{Kind: vlog.NLeaf, Key: "k", Leaf: vlog.LeafByName("str")}
+		for lv := 0; lv < 5; lv++ {
+			for _, ch := range [][]vlog.ChainOp{nil, {{Group: "g"}}, {{Attrs: []*vlog.Node{leaf}}}} {
+				if !yield(&Rec{Level: lv, Source: true, Entry: 3, Msg: "odd source", Chain: ch, Call: []*vlog.Node{leaf}}) {
+					return
+				}
+			}
+		}
+	}
+}
+
+// The functions below must stay the last ones of this file, in this order: each //line
+// directive renames everything after it.
+func emitOddSource(l *logger.Logger, r *Rec) (file string, line int) {
+	ctx := context.Background()
+	lv := Levels[r.Level]
+	switch r.Level % 3 {
+	case 0:
+		return emitOddSource1(l, r)
+	case 1:
+		return emitOddSource2(l, r)
+	}
+//line we ird=dir/"q uote" level=ERROR.go:77
+	l.Log(ctx, lv, r.Msg, vlog.Args(r.Call)...)
+	return `we ird=dir/"q uote" level=ERROR.go`, 77
+}
+
+func emitOddSource1(l *logger.Logger, r *Rec) (file string, line int) {
+	ctx := context.Background()
+	lv := Levels[r.Level]
+//line /abs/dir one/dir=two/fi"le.go:1234567
+	l.Log(ctx, lv, r.Msg, vlog.Args(r.Call)...)
+	return `/abs/dir one/dir=two/fi"le.go`, 1234567
+}
+
+func emitOddSource2(l *logger.Logger, r *Rec) (file string, line int) {
+	ctx := context.Background()
+	lv := Levels[r.Level]
+//line main.go:1
+	l.Log(ctx, lv, r.Msg, vlog.Args(r.Call)...)
+	return `main.go`, 1
 }
